@@ -533,11 +533,12 @@ def check_C09(run, replay):
                 "proved for every budget / bound sequence / threshold by TLAPS (spec/proofs/StopProof.tla: FirstHitOrBudget); "
                 "traces: for U-zoo and seeded games, methods Full / Sampled / External under pinned draws, the five presets, "
                 "budgets {2,5,20(,1,100)}: the unthresholded prefixes t=1..N (bound tokens, strategy digests), then "
-                "solve(m,N,r,k) for r just below / at / just above every total bound (next_down, exact, next_up; 1e-6 apart "
-                "for k>1), 0, -1, NaN, +-inf, k in {1,4(,2)}; every run validated against Trace_Stop.tla; non-trivial = "
+                "solve(m,N,r,k) for r just below / at / just above every total bound (next_down, exact, next_up; also 1e-6 apart "
+                "for k>1, where a run is judged on its own per-iteration bounds), 0, -1, NaN, +-inf, k in {1,4(,2)}; budget "
+                "u64::MAX against thresholds the series crosses; every run validated against Trace_Stop.tla; non-trivial = "
                 "every thresholded run; distinct = distinct run events")
     run.assumptions = ["one thread is bitwise deterministic under pinned draws (prefix digests compared bitwise)",
-                       "with several threads thresholds keep a relative distance of 1e-6 from every bound"]
+                       "with several threads only the stop rule on the run's own bounds is judged (no prefix comparison)"]
     res = tlc("MC_Stop", timeout=600)
     run.add_tlc(res)
     # unbounded: the TLAPS proof of the same rule for every budget, bound sequence and threshold
